@@ -42,7 +42,7 @@ def replay_sort(cases_path, out_path):
         n = c.get("_n", n)
         K, rev, na_last, perm = c["K"], c["rev"], c["naLast"], c["perm"]
         nk = len(rev)
-        tag = ["int", "str", "date", "float", "bool", "dtsame"][n % 6]
+        tag = ["int", "str", "date", "float", "bool", "dtsame", "finf"][n % 7]
         pal = (n // 5) % 3
         variant = (n // 15) % 12
         rows = [list(k) + [i, (-1 if i % 3 == 1 else i)] for i, k in enumerate(K)]
@@ -215,7 +215,8 @@ def group_call(side, kidx, vcol_idx, funs, variant, method, calls, second=None):
     def rec(vals):
         calls.append(list(vals))
         return len(calls)
-    kw["apply"] = {"calls": (v, rec)}
+    # "keep" hands its argument back (a collecting aggregator): every group owns the list it was given
+    kw["apply"] = {"calls": (v, rec), "keep": (v, lambda vals: vals)}
     return getattr(side.table, method)(over, **kw)
 
 
@@ -239,6 +240,16 @@ def replay_group(cases_path, out_path):
         rows = [list(k) + [V[i], i] for i, k in enumerate(K)]
         names = ["g%d" % (i + 1) for i in range(nk)] + ["v", "pos"]
         S = Side(rows, nk + 2, [tag] * nk + ["int", "int"], [pal] * nk + [0, 0], names)
+        if tag == "int" and pal == 0 and variant != 0:
+            # equal but distinguishable key cells (1 / 1.0): one group, and window reproduces every cell as it was stored
+            seen_first = set()
+            for i in range(len(K)):
+                if tuple(K[i]) in seen_first and i % 2:           # a LATER row of a group: the group's first row keeps the canonical cells
+                    for cc in range(nk):
+                        if S.cols[cc][i] is not None:
+                            S.cols[cc][i] = float(S.cols[cc][i])
+                seen_first.add(tuple(K[i]))
+            S.table = Table([Vector(list(S.cols[cc]), name=names[cc]) for cc in range(nk + 2)]) if K else S.table
         info = {"tag": tag, "palette": pal, "variant": variant, "funs": funs}
         before = table_view(S.table)
         expkeys = [[conc(tag, x, pal) for x in k] for k in c["keys"]]
@@ -272,6 +283,9 @@ def replay_group(cases_path, out_path):
                 expcalls = [[None if x == -1 else x for x in g] for g in c["calls"]]
                 if calls != expcalls:
                     F.add("apply_calls", c, calls, expcalls, info)
+                kept = col_by_name(res, "keep")
+                if kept is not None and [list(x) if x is not None else None for x in kept] != expcalls:
+                    F.add("apply_calls", c, {"values handed back by the function, per group": kept}, expcalls, info)
                 if list(res.column_names()[:nk]) != names[:nk]:
                     F.add("keys_first", c, res.column_names(), names[:nk], info)
                 mon.see(res, "aggregate result", rule=True)
@@ -325,6 +339,9 @@ def replay_group(cases_path, out_path):
             # custom functions see the same groups (None cells included, row order) as in aggregate, and every row
             # of a group receives that group's value
             expcalls = [[None if x == -1 else x for x in g] for g in c["calls"]]
+            kept = col_by_name(res, "keep")
+            if kept is not None and len(kept) == len(K) and [list(x) if x is not None else None for x in kept] != [expcalls[g - 1] for g in c["gidx"]]:
+                F.add("window_value", c, {"values handed back by the function, per row": kept}, [expcalls[g - 1] for g in c["gidx"]], info)
             if sorted(map(repr, calls)) != sorted(map(repr, expcalls)):
                 F.add("window_value", c, {"apply called with": calls}, {"apply called with": expcalls}, info)
             else:
@@ -379,6 +396,21 @@ def replay_group(cases_path, out_path):
                 clause = {"Vector": "reduce_value", "aggregate": "agg_value", "window": "window_value"}[how]
                 if st != "ok" or r is None or abs(r - want) > 1e-6 * max(abs(want), 1e-300):
                     F.add(clause, {"values": repr(vals), "function": f, "through": how}, r if st == "ok" else err, want, {})
+    # the reductions' own parameters: stdev(population=True) is the population formula over the NON-None values (None is
+    # skipped, not counted), by keyword and by position
+    import statistics
+    for vals in ([1, None, 3], [2, 4, None, None, 9], [1.5, 2.5, 3.5], [None, 7, None, 9, 11, None]):
+        present = [x for x in vals if x is not None]
+        for label, call in (("stdev(population=True)", lambda v: v.stdev(population=True)), ("stdev(True)", lambda v: v.stdev(True)),
+                            ("stdev(population=False)", lambda v: v.stdev(population=False)), ("stdev()", lambda v: v.stdev())):
+            want = statistics.pstdev(present) if "True" in label else statistics.stdev(present)
+            st, r, err = outcome_of(lambda: call(Vector(list(vals))))
+            executed += 1
+            if st != "ok" or r is None or abs(r - want) > 1e-9 * max(1.0, abs(want)):
+                F.add("reduce_value", {"values": repr(vals), "call": label}, r if st == "ok" else err, want, {})
+            st, r, err = outcome_of(lambda: call(Vector(list(present))))
+            if st != "ok" or r is None or abs(r - want) > 1e-9 * max(1.0, abs(want)):
+                F.add("reduce_value", {"values": repr(present), "call": label + " after dropna"}, r if st == "ok" else err, want, {})
     json.dump({"executed": executed, "failures": F.items, "per_clause": F.per, "skipped": {}, **mon.dump()},
               open(out_path, "w"), default=str)
 
